@@ -59,14 +59,14 @@ theorem strOutcome_wf (p : Option Text) :
   · exact ⟨by intro raw h; simp at h, by intro e h; simp at h; subst h; exact hinv⟩
 
 theorem kind_names (m : Text) (k : MKind) (h : kindOfMethod m = some k) (hk : k ≠ .subscribe) :
-    m = nUnsub ∨ m = nEcho ∨ m = nSum ∨ m = nFail ∨ m = nStr ∨ m = nEsc ∨ m = nAEcho ∨ m = nASum ∨ m = nBlkEcho ∨ m = nBlkBoom := by
+    m = nUnsub ∨ m = nEcho ∨ m = nSum ∨ m = nFail ∨ m = nStr ∨ m = nEsc ∨ m = nAEcho ∨ m = nASum ∨ m = nBlkEcho ∨ m = nBlkBoom ∨ m = nRpcE := by
   unfold kindOfMethod at h
   split at h
   · simp at h; exact absurd h.symm hk
   split at h
   · rename_i hm; left; simpa using hm
   split at h
-  · rename_i hm; simp at hm; right; rcases hm with (((hm | hm) | hm) | hm) | hm <;> simp [hm]
+  · rename_i hm; simp at hm; right; rcases hm with ((((hm | hm) | hm) | hm) | hm) | hm <;> simp [hm]
   split at h
   · rename_i hm; simp at hm; right; right; right; right; right; right; rcases hm with hm | hm <;> simp [hm]
   split at h
@@ -75,28 +75,29 @@ theorem kind_names (m : Text) (k : MKind) (h : kindOfMethod m = some k) (hk : k 
 
 /-- every outcome of every (non-subscribe) handler of the harness registry is a well-formed payload -/
 theorem outcomeOf_wf (m : Text) (p : Option Text) (hp : optRawWF p)
-    (hm : m = nUnsub ∨ m = nEcho ∨ m = nSum ∨ m = nFail ∨ m = nStr ∨ m = nEsc ∨ m = nAEcho ∨ m = nASum ∨ m = nBlkEcho ∨ m = nBlkBoom) :
+    (hm : m = nUnsub ∨ m = nEcho ∨ m = nSum ∨ m = nFail ∨ m = nStr ∨ m = nEsc ∨ m = nAEcho ∨ m = nASum ∨ m = nBlkEcho ∨ m = nBlkBoom ∨ m = nRpcE) :
     (∀ raw, outcomeOf m p = .result raw → Stable raw) ∧ (∀ e, outcomeOf m p = .error e → e.WF) := by
   have hecho : (∀ raw, Outcome.result (paramsText p) = .result raw → Stable raw) ∧ (∀ e, Outcome.result (paramsText p) = .error e → e.WF) :=
     ⟨by intro raw h; simp at h; subst h; exact paramsText_stable p hp, by intro e h; simp at h⟩
-  rcases hm with h | h | h | h | h | h | h | h | h | h <;> subst h
-  · exact ⟨by intro raw h; simp [outcomeOf, nUnsub, nEcho, nAEcho, nBlkEcho, nSum, nASum, nFail, nStr, nEsc, nBlkBoom] at h; subst h; exact stable_false,
-      by intro e h; simp [outcomeOf, nUnsub, nEcho, nAEcho, nBlkEcho, nSum, nASum, nFail, nStr, nEsc, nBlkBoom] at h⟩
-  · simpa [outcomeOf] using hecho
-  · have := sumOutcome_wf p; simpa [outcomeOf, nSum, nEcho, nAEcho, nBlkEcho] using this
-  · refine ⟨by intro raw h; simp [outcomeOf, nFail, nEcho, nAEcho, nBlkEcho, nSum, nASum] at h, ?_⟩
+  rcases hm with h | h | h | h | h | h | h | h | h | h | h <;> subst h
+  · exact ⟨by intro raw h; simp [outcomeOf, nUnsub, nEcho, nAEcho, nBlkEcho, nRpcE, nSum, nASum, nFail, nStr, nEsc, nBlkBoom] at h; subst h; exact stable_false,
+      by intro e h; simp [outcomeOf, nUnsub, nEcho, nAEcho, nBlkEcho, nRpcE, nSum, nASum, nFail, nStr, nEsc, nBlkBoom] at h⟩
+  · simpa [outcomeOf, nEcho, nRpcE] using hecho
+  · have := sumOutcome_wf p; simpa [outcomeOf, nSum, nEcho, nAEcho, nBlkEcho, nRpcE] using this
+  · refine ⟨by intro raw h; simp [outcomeOf, nFail, nEcho, nAEcho, nBlkEcho, nRpcE, nSum, nASum] at h, ?_⟩
     intro e h
-    simp [outcomeOf, nFail, nEcho, nAEcho, nBlkEcho, nSum, nASum] at h
+    simp [outcomeOf, nFail, nEcho, nAEcho, nBlkEcho, nRpcE, nSum, nASum] at h
     subst h
     exact ⟨by simp, by simp, rawParams_wf p hp⟩
-  · have := strOutcome_wf p; simpa [outcomeOf, nStr, nFail, nEcho, nAEcho, nBlkEcho, nSum, nASum] using this
-  · exact ⟨by intro raw h; simp [outcomeOf, nEsc, nStr, nFail, nEcho, nAEcho, nBlkEcho, nSum, nASum] at h; subst h; exact stable_encodeString _,
-      by intro e h; simp [outcomeOf, nEsc, nStr, nFail, nEcho, nAEcho, nBlkEcho, nSum, nASum] at h⟩
-  · simpa [outcomeOf, nAEcho, nEcho] using hecho
-  · have := sumOutcome_wf p; simpa [outcomeOf, nASum, nSum, nEcho, nAEcho, nBlkEcho] using this
-  · simpa [outcomeOf, nBlkEcho, nEcho, nAEcho] using hecho
-  · exact ⟨by intro raw h; simp [outcomeOf, nBlkBoom, nEsc, nStr, nFail, nEcho, nAEcho, nBlkEcho, nSum, nASum] at h,
-      by intro e h; simp [outcomeOf, nBlkBoom, nEsc, nStr, nFail, nEcho, nAEcho, nBlkEcho, nSum, nASum] at h⟩
+  · have := strOutcome_wf p; simpa [outcomeOf, nStr, nFail, nEcho, nAEcho, nBlkEcho, nRpcE, nSum, nASum] using this
+  · exact ⟨by intro raw h; simp [outcomeOf, nEsc, nStr, nFail, nEcho, nAEcho, nBlkEcho, nRpcE, nSum, nASum] at h; subst h; exact stable_encodeString _,
+      by intro e h; simp [outcomeOf, nEsc, nStr, nFail, nEcho, nAEcho, nBlkEcho, nRpcE, nSum, nASum] at h⟩
+  · simpa [outcomeOf, nAEcho, nEcho, nRpcE] using hecho
+  · have := sumOutcome_wf p; simpa [outcomeOf, nASum, nSum, nEcho, nAEcho, nBlkEcho, nRpcE] using this
+  · simpa [outcomeOf, nBlkEcho, nEcho, nAEcho, nRpcE] using hecho
+  · exact ⟨by intro raw h; simp [outcomeOf, nBlkBoom, nEsc, nStr, nFail, nEcho, nAEcho, nBlkEcho, nRpcE, nSum, nASum] at h,
+      by intro e h; simp [outcomeOf, nBlkBoom, nEsc, nStr, nFail, nEcho, nAEcho, nBlkEcho, nRpcE, nSum, nASum] at h⟩
+  · simpa [outcomeOf, nRpcE, nEcho, nAEcho, nBlkEcho] using hecho
 
 /-- **C01.1 (well-formedness, unconditional for the registry)** — every reply to a valid call of a
 non-subscription method of the harness registry parses back as a JSON-RPC 2.0 response carrying the
